@@ -25,6 +25,12 @@ def times(variant, n):
             out.append(t)
             t += (0, 100, 2500000, 700, 0, 1000100)[k % 6]
         return out
+    if mode == 'micro':   # not multiples of the displayed resolution; one quiet period of 40 minutes
+        out, t = [], T0_US + 37
+        for k in range(n):
+            out.append(t)
+            t += (40, 120, 73, 2400000031, 7, 1000111, 90, 160)[k % 8]
+        return out
     raise ValueError(mode)
 
 
@@ -209,6 +215,7 @@ def make_expand(variant, kinds=None, alphabet_kw=None):
 
 
 VARIANTS = {
+    'client_micro_times': {'dialect': 'mid', 'time': 'micro'},
     'late_registry': {'dialect': 'mid', 'late_registry': True},
     'late_registry_server': {'dialect': 'old', 'late_registry': True, 'server_side': True, 'time': 'equal'},
     'client': {'dialect': 'mid'},
